@@ -149,6 +149,34 @@ Theorem C15_exchange_completes_except_known : forall validate, SigSound validate
     /\ p_step validate p (PResponse resp) = POk p' /\ p_open p' = None.
 Proof. exact exchange_completes_except_known. Qed.
 
+(** add_child of a known handle is refused and changes nothing - whatever ID certificate comes with it;
+    a new handle starts with nothing used and nothing open, and no other child is touched. *)
+Theorem C15_add_known_child_refused : forall validate p c i ch,
+  aget c (p_children p) = Some ch ->
+  p_step validate p (PAddChild c i) = PErr EDupChild /\ p_after validate p (PAddChild c i) = p.
+Proof. exact add_known_child_refused. Qed.
+
+Theorem C15_add_child_accepted_iff : forall validate p c i,
+  (exists p', p_step validate p (PAddChild c i) = POk p') <-> aget c (p_children p) = None.
+Proof. exact add_child_accepted_iff. Qed.
+
+Theorem C15_add_new_child_effect : forall validate p c i p',
+  p_step validate p (PAddChild c i) = POk p' ->
+  aget c (p_children p) = None /\ aget c (p_children p') = Some (new_child i)
+  /\ forall c', c' <> c -> aget c' (p_children p') = aget c' (p_children p).
+Proof. exact add_new_child_effect. Qed.
+
+(** A response that waits for a child leaves the proxy only by the hand-over to that child (or by an accepted
+    signer response); no command other than an accepted signer response changes what is known about a used key. *)
+Theorem C15_pending_response_kept : forall validate p cmd p' c k a,
+  p_step validate p cmd = POk p' -> open_resp p c k = Some a ->
+  open_resp p' c k = Some a \/ cmd = PGive c k \/ (exists m, cmd = PResponse m).
+Proof. exact pending_response_kept. Qed.
+
+Theorem C15_used_keys_kept : forall validate p cmd p' c k u,
+  p_step validate p cmd = POk p' -> (forall m, cmd <> PResponse m) -> used_key p c k = Some u -> used_key p' c k = Some u.
+Proof. exact used_keys_kept. Qed.
+
 (** The intended validation function satisfies the assumption (so the theorems are not vacuous). *)
 Theorem C15_validate_std_sound : SigSound validate_std.
 Proof. exact validate_std_sound. Qed.
@@ -171,3 +199,8 @@ Print Assumptions C15_exchange_completes_any_env_refuted.
 Print Assumptions C15_desync_no_new_request.
 Print Assumptions C15_exchange_completes_except_known.
 Print Assumptions C15_validate_std_sound.
+Print Assumptions C15_add_known_child_refused.
+Print Assumptions C15_add_child_accepted_iff.
+Print Assumptions C15_add_new_child_effect.
+Print Assumptions C15_pending_response_kept.
+Print Assumptions C15_used_keys_kept.
